@@ -774,7 +774,7 @@ func isNilIface(x any) bool {
 var schedulePoints = []string{
 	"memq.add.picked", "memtable.add.prelock", "memtable.add.locked", "flush.begin", "crash:flush.create.hybrid", "crash:flush.create.vector", "crash:flush.written",
 	"crash:flush.close.vector", "crash:flush.close.hybrid", "crash:flush.added", "flush.registered", "flush.dropped",
-	"segment.load.begin", "segment.load.done", "search.listed-memtables", "search.listed-segments", "memq.list", "segmgr.list",
+	"segment.load.begin", "segment.load.instances", "segment.load.done", "search.listed-memtables", "search.listed-segments", "memq.list", "segmgr.list",
 	"compact.begin", "crash:compact.create.hybrid", "crash:compact.written", "crash:compact.added", "crash:compact.removed", "crash:delete.before", "compact.end",
 	// "@roomy": the same point with a memtable limit far above the workload, so the paused write sits in a memtable that
 	// already holds documents (with the tiny limit nearly every add rotates first and finds an empty one)
